@@ -58,10 +58,14 @@ where
         let original_input = input.get_position();
 
         // parse the left boundary
-        if let Err(err) = self.left.parse(input)
-            && (err.is_fatal() || self.mode == SurroundMode::Mandatory)
-        {
-            return Err(err);
+        if let Err(err) = self.left.parse(input) {
+            if err.is_soft() {
+                // the left boundary did not match, make sure it did not consume anything
+                input.set_position(original_input);
+            }
+            if err.is_fatal() || self.mode == SurroundMode::Mandatory {
+                return Err(err);
+            }
         }
 
         // parse the main content
@@ -80,11 +84,14 @@ where
         };
 
         // parse the right boundary
-        if let Err(err) = self.right.parse(input)
-            && (err.is_fatal() || self.mode == SurroundMode::Mandatory)
-        {
-            // convert the missing right boundary into a fatal error!
-            return Err(err.to_fatal());
+        let position_before_right = input.get_position();
+        if let Err(err) = self.right.parse(input) {
+            if err.is_fatal() || self.mode == SurroundMode::Mandatory {
+                // convert the missing right boundary into a fatal error!
+                return Err(err.to_fatal());
+            }
+            // the optional right boundary did not match, make sure it did not consume anything
+            input.set_position(position_before_right);
         }
 
         Ok(result)
